@@ -29,10 +29,17 @@ def main():
     gen.HOSTILE_SCALE = "scale" in hostile
     gen.HOSTILE_MEAN = "mean" in hostile
     gen.HOSTILE_SPECIAL = "special" in hostile
+    gen.LIVE_PEERS = "special" in hostile
     rec = core.Rec(a.prop)
     rec.classifier = getattr(mod, "classify", None)
     hooks.install(monitors=getattr(mod, "MONITORS", ("WF",)), rec=rec)
     cells = json.load(open(a.cells))
+    # the order in which a process meets the cells is part of the history (process-level memos,
+    # class-level caches): a different order for every seed; each cell's own values depend on
+    # (seed, cell) only, so a replay of one cell is unaffected
+    import numpy as _np
+    order = _np.random.default_rng([a.seed & 0xFFFFFFFF, len(cells)]).permutation(len(cells))
+    cells = [cells[i] for i in order]
     done, skipped, errors = 0, 0, []
     for cell in cells:
         if time.time() - t0 > a.budget:
